@@ -165,6 +165,7 @@ pub fn crl_obs(der: &[u8], key: &LiveKey) -> Value {
 }
 
 pub fn run_crl_case(case: &Value, idx: usize, seed: u64, pool: &mut KeyPool, out: &mut Out) {
+	let mut rng_probe = Rng::new(seed ^ idx as u64);
 	let case_id = case.get("_id").and_then(|v| v.as_str()).map(|s| s.to_string()).unwrap_or_else(|| format!("{}/{}", sval(case, "grp"), idx));
 	let mut rng = Rng::from_str(seed, &case_id);
 	let mut p = case["params"].clone();
@@ -215,9 +216,90 @@ pub fn run_crl_case(case: &Value, idx: usize, seed: u64, pool: &mut KeyPool, out
 		l.lock().unwrap().messages.clear();
 	}
 	match guarded(|| params.signed_by(&issuer, &key.kp)) {
-		Outcome::Ok(crl) => out.event("Crl", &case_id, args, "Ok", "", crl_obs(crl.der(), key)),
+		Outcome::Ok(crl) => {
+			out.event("Crl", &case_id, args, "Ok", "", crl_obs(crl.der(), key));
+			// independent revocation checkers, probed with certificates really issued under listed and
+			// unlisted serial numbers (CRLs with an issuing distribution point need matching certificate
+			// distribution points and are left to the structural clauses)
+			if sval(&p["idp"], "k") == "none" && matches!(sval(case, "grp").as_str(), "crl-entry" | "crl-serial" | "crl-alg" | "crl-guards") && case_hash(&case_id) % 3 == 0 {
+				revocation_probes(&p, &issuer, key, crl.der(), &case_id, &mut rng_probe, out);
+			}
+		},
 		Outcome::Err(e) => out.event("Crl", &case_id, args, "Err", &e, json!({})),
 		Outcome::Panic(m) => out.event("Crl", &case_id, args, "Panic", &m, json!({})),
+	}
+}
+
+fn case_hash(s: &str) -> u64 {
+	s.bytes().fold(7u64, |h, b| h.wrapping_mul(31).wrapping_add(b as u64))
+}
+
+fn strip_zeros(b: &[u8]) -> Vec<u8> {
+	b.iter().copied().skip_while(|x| *x == 0).collect()
+}
+
+fn revocation_probes(p: &Value, issuer: &Certificate, key: &LiveKey, crl_der: &[u8], case_id: &str, rng: &mut Rng, out: &mut Out) {
+	let listed: Vec<Vec<u8>> = p["revoked"].as_array().unwrap().iter().map(|r| bytes_of(&r["serial"])).collect();
+	let mut probes: Vec<Vec<u8>> = Vec::new();
+	for s in &listed {
+		probes.push(s.clone());
+		// the same INTEGER written with another number of leading zero octets, and a neighbour value
+		let mut z = vec![0u8];
+		z.extend(s);
+		probes.push(z);
+		probes.push(strip_zeros(s));
+		let mut n = if s.is_empty() { vec![0] } else { s.clone() };
+		let l = n.len();
+		n[l - 1] ^= 1;
+		probes.push(n);
+	}
+	probes.push(vec![0x5a, 0x5a, 0x5a]);
+	probes.push(vec![]);
+	let leaf_key = match live_key("k-leaf", "ed25519", "remote", rng) {
+		Ok(k) => k,
+		Err(_) => return,
+	};
+	let ca_der = issuer.der().to_vec();
+	for (i, serial) in probes.iter().enumerate() {
+		if serial.len() > 20 {
+			continue; // webpki refuses serial numbers longer than 20 octets in certificates
+		}
+		let mut lp = base_params_desc();
+		lp["dn"] = json!([{"ty": "2.5.4.3", "kind": "utf8", "val": hex(b"revocation probe")}]);
+		lp["sans"] = json!([{"v": "dns", "val": hex(b"probe.example"), "b": [], "oid": "", "dn": []}]);
+		lp["serial"] = json!({"k": "given", "b": bytes_json(serial)});
+		lp["nb"] = json!({"y": 2000, "mo": 1, "d": 1, "h": 0, "mi": 0, "s": 0, "ns": 0, "off": 0});
+		lp["na"] = json!({"y": 2090, "mo": 1, "d": 1, "h": 0, "mi": 0, "s": 0, "ns": 0, "off": 0});
+		if !cfg!(feature = "crypto") {
+			lp["kid"] = json!({"k": "pre", "b": [3]});
+		}
+		let leaf = match guarded(|| to_params(&lp).unwrap().signed_by(&leaf_key.kp, issuer, &key.kp)) {
+			Outcome::Ok(c) => c,
+			_ => continue,
+		};
+		let listed_json = Value::Array(listed.iter().map(|s| bytes_json(s)).collect());
+		let o = crate::validate::openssl_revoked(crl_der, leaf.der());
+		out.event("RevocationCheck", &format!("{}/probe{}", case_id, i), json!({"listed": listed_json, "certSerial": bytes_json(serial), "validator": "openssl"}), "Ok", "", o);
+		// webpki: chain verifies without the CRL (precondition), then with it
+		let t = crate::validate::unix_of(2024, 6, 1, 0);
+		let without = crate::validate::webpki_chain(leaf.der(), &[], &ca_der, t, "server", &[]);
+		if without["accept"].as_bool().unwrap_or(false) {
+			let with = crate::validate::webpki_chain(leaf.der(), &[], &ca_der, t, "server", &[crl_der.to_vec()]);
+			let why = sval(&with, "why");
+			let revoked = why.contains("CertRevoked");
+			// webpki represents times as seconds since 1970 and cannot read a CRL that mentions an earlier date
+			let pre_epoch = p["revoked"].as_array().unwrap().iter().any(|r| {
+				r["time"]["y"].as_i64().unwrap_or(2000) < 1971 || (sval(&r["invalidity"], "k") == "some" && r["invalidity"]["t"]["y"].as_i64().unwrap_or(2000) < 1971)
+			}) || p["thisUpdate"]["y"].as_i64().unwrap_or(2000) < 1971;
+			let k = if with["accept"].as_bool().unwrap_or(false) || revoked {
+				"ok"
+			} else if pre_epoch && why.contains("BadDerTime") {
+				"na"
+			} else {
+				"err"
+			};
+			out.event("RevocationCheck", &format!("{}/probe{}", case_id, i), json!({"listed": listed_json, "certSerial": bytes_json(serial), "validator": "webpki"}), "Ok", "", json!({"k": k, "revoked": revoked, "why": why}));
+		}
 	}
 }
 
